@@ -562,6 +562,30 @@ impl<'a> Gen<'a> {
         self.emit(format!("tx {} 0 fm claim -", ub));
     }
 
+    /// directed scenario for C05 / C11: every funding shape of a farm whose reward denom is the fee denom
+    /// (fee only, reward only, one unit short, exact) and of one with a different reward denom
+    pub fn op_scenario_farm_funding(&mut self) {
+        let Some(lp) = self.some_lp() else { return self.op_provide() };
+        let cfg: mantra_dex_std::farm_manager::Config = self.run.h.w.app.wrap()
+            .query_wasm_smart(self.run.h.w.a("fm"), &mantra_dex_std::farm_manager::QueryMsg::Config {}).unwrap();
+        let fee = cfg.create_farm_fee.clone();
+        let tag = self.r.below(10_000);
+        let aa = 2000 + self.r.below(50_000) as u128;
+        let fd = fee.denom.clone();
+        let fa = fee.amount.u128();
+        let variants: Vec<u128> = vec![fa, aa, (aa + fa).saturating_sub(1), aa + fa + 1, aa + fa];
+        for (k, v) in variants.iter().enumerate() {
+            if *v == 0 { continue; }
+            let sender = ["u1", "u2", "u3"][self.r.below(3) as usize];
+            self.emit(format!("tx {} 1 {} {} fm createfarm {} - - {} {} ff{}{}", sender, fd, v, lp, fd, aa, k, tag));
+        }
+        // different reward denom: the fee coin missing / the reward coin short
+        let other = if fd == "uusdc" { "uusdt" } else { "uusdc" };
+        let mut f1 = vec![coin(aa, other)]; if fa > 0 { f1.push(coin(fa, fd.clone())); } f1.sort_by(|a, b| a.denom.cmp(&b.denom));
+        self.emit(format!("tx u1 1 {} {} fm createfarm {} - - {} {} fg0{}", other, aa, lp, other, aa, tag));
+        self.emit(format!("tx u1 {} fm createfarm {} - - {} {} fg1{}", funds_str(&f1), lp, other, aa + 1, tag));
+    }
+
     /// directed scenario for C05 / C11: two farms paying the same reward denom, a user claims from both,
     /// then one of them is closed: the refund must be the unclaimed remainder only (the other farm's budget
     /// and the locked LP stay covered)
@@ -704,6 +728,12 @@ pub fn gen_pm_case(r: &mut Rng, id: u64, len: u64, faults: bool, o: &mut Out) {
     // a couple of pools first
     g.op_create_pool();
     g.op_create_pool();
+    if id % 3 == 0 {
+        // directed: several funded pools, then a route with one hop switched off
+        for _ in 0..2 { g.op_create_pool(); }
+        for _ in 0..6 { g.op_provide(); }
+        g.op_scenario_disabled_route();
+    }
     while g.ops < len {
         match g.r.below(40) {
             0 | 1 => g.op_create_pool(),
@@ -726,6 +756,8 @@ pub fn gen_pm_case(r: &mut Rng, id: u64, len: u64, faults: bool, o: &mut Out) {
 
 /// farm-manager centred history
 pub fn gen_fm_case(r: &mut Rng, id: u64, len: u64, faults: bool, o: &mut Out) {
+    // fault enumeration runs the fm cases at odd ids: every one of them starts with a scenario
+    let scen: Option<u64> = if faults { Some(id / 2) } else if id % 2 == 0 { Some(id / 2) } else { None };
     let cfg = gen_cfg(r);
     let mut run = crate::streams::hist::Runner::new(cfg);
     o.raw(&format!("begin {}", id));
@@ -737,7 +769,18 @@ pub fn gen_fm_case(r: &mut Rng, id: u64, len: u64, faults: bool, o: &mut Out) {
     g.op_create_pool();
     g.op_create_pool();
     for _ in 0..6 { g.op_provide(); }
-    if g.r.chance(1, 4) { g.op_scenario_piecewise_close(); }
+    // every second case starts with one directed scenario, in rotation, whatever the seed
+    if let Some(k) = scen {
+        match k % 7 {
+            0 => g.op_scenario_piecewise_close(),
+            1 => g.op_scenario_shared_owner_emergency(),
+            2 => g.op_scenario_double_autoclose(),
+            3 => g.op_scenario_close_after_claim(),
+            4 => g.op_scenario_farm_funding(),
+            5 => { g.op_create_farm(); g.op_scenario_farm_expiry_boundary() }
+            _ => { g.op_scenario_shared_owner_emergency(); g.op_scenario_farm_expiry_boundary() }
+        }
+    } else if g.r.chance(1, 4) { g.op_scenario_piecewise_close(); }
     while g.ops < len {
         match g.r.below(42) {
             0 => g.op_create_pool(),
